@@ -2,6 +2,8 @@
 """benign_recheck.py [names]: re-applies every kept harmless rewrite (benign/<name>/patch.diff) to /repo, re-runs the quick
 checks recorded for it, updates the outcome in its meta.json, and undoes the patch straight afterwards.  Run after the
 checks were strengthened: a harmless rewrite must still raise no alarm.  (Do not edit the development meanwhile.)"""
+import os as _os
+_os.environ['VERIF_EVIDENCE_DIR'] = '/verif/work/evidence_scratch'
 import glob, json, os, shutil, subprocess, sys
 names = [a for a in sys.argv[1:] if not a.startswith('--')] or sorted(os.path.basename(d) for d in glob.glob('/verif/benign/*') if os.path.isdir(d))
 for name in names:
